@@ -12,7 +12,8 @@ EXPLANATION = (
     "start_time + 750, next_send := now + 250, probe question ANY with all probe records as authorities, start jitter "
     "fastrand::u64(0..250); (d) no answers while probing (status guards, shared with C06a); (e) every first successful "
     "announce schedules Command::RegisterResend at +1000 with a timer, and the resend handler finds the service (F5 on "
-    "my_services); (f) announcement record set.  Decides these mechanisms, not bounded-time liveness or wire spacing.")
+    "my_services); (f) announcement record set.  Decides these mechanisms, not bounded-time liveness or wire spacing."
+    " (g) Every `false` result of is_probing_done has put the service on the probe's waiting list.")
 UNDECIDED = ["'reaches the announced state within a bounded time' (liveness)", "actual spacing of probe packets on the wire",
              "several services sharing a host name (value-level interplay of probes)"]
 
